@@ -1,6 +1,6 @@
 //! Flat numeric dumps of structured values, mirrored by lean/P2/Drv/Parse.lean.
 use plonky2::field::extension::quadratic::QuadraticExtension;
-use plonky2::field::goldilocks_field::GoldilocksField as F;
+pub use plonky2::field::goldilocks_field::GoldilocksField as F;
 use plonky2::field::types::PrimeField64;
 use plonky2::fri::proof::{FriChallenges, FriProof, FriQueryRound};
 use plonky2::fri::reduction_strategies::FriReductionStrategy;
@@ -161,6 +161,165 @@ pub fn fri_verdict(res: anyhow::Result<()>) -> String {
                 "final"
             } else if m.contains("old_eval") {
                 "consistency"
+            } else {
+                "shape"
+            };
+            format!("REJECT:{stage}")
+        }
+    }
+}
+
+// ---------------------------------------------------------------- PLONK-level dumps
+use plonky2::gates::gate::GateRef;
+use plonky2::plonk::circuit_data::{CommonCircuitData, VerifierOnlyCircuitData};
+use plonky2::plonk::config::PoseidonGoldilocksConfig;
+use plonky2::plonk::proof::{OpeningSet, Proof, ProofWithPublicInputs};
+
+pub type C = PoseidonGoldilocksConfig;
+
+/// `tag nparams p1 … pn` — see lean/P2/Drv/ParseGates.lean
+pub fn dump_gate(g: &GateRef<F, 2>) -> Vec<u64> {
+    let id = g.0.id();
+    let field = |name: &str| -> u64 {
+        let k = format!("{name}: ");
+        let s = &id[id.find(&k).unwrap_or_else(|| panic!("gate id {id} lacks {name}")) + k.len()..];
+        s.chars().take_while(|c| c.is_ascii_digit()).collect::<String>().parse().unwrap()
+    };
+    let (tag, params): (u64, Vec<u64>) = if id.starts_with("ArithmeticGate") {
+        (0, vec![field("num_ops")])
+    } else if id.starts_with("ArithmeticExtensionGate") {
+        (1, vec![field("num_ops")])
+    } else if id.starts_with("MulExtensionGate") {
+        (2, vec![field("num_ops")])
+    } else if id.starts_with("BaseSumGate") {
+        let b: u64 = id[id.find("Base: ").expect("BaseSumGate id") + 6..].trim().parse().unwrap();
+        (3, vec![b, field("num_limbs")])
+    } else if id.starts_with("ConstantGate") {
+        (4, vec![field("num_consts")])
+    } else if id.starts_with("CosetInterpolationGate") {
+        let ws = &id[id.find("barycentric_weights: [").unwrap() + 22..];
+        let ws = &ws[..ws.find(']').unwrap()];
+        let mut p = vec![field("subgroup_bits"), field("degree")];
+        p.extend(ws.split(',').filter(|s| !s.trim().is_empty()).map(|s| s.trim().parse::<u64>().unwrap()));
+        (5, p)
+    } else if id.starts_with("ExponentiationGate") {
+        (6, vec![field("num_power_bits")])
+    } else if id.starts_with("LookupGate") {
+        (7, vec![field("num_slots")])
+    } else if id.starts_with("LookupTableGate") {
+        (8, vec![field("num_slots")])
+    } else if id.starts_with("NoopGate") {
+        (9, vec![])
+    } else if id.starts_with("PoseidonGate") {
+        (10, vec![])
+    } else if id.starts_with("PoseidonMdsGate") {
+        (11, vec![])
+    } else if id.starts_with("PublicInputGate") {
+        (12, vec![])
+    } else if id.starts_with("RandomAccessGate") {
+        (13, vec![field("bits"), field("num_copies"), field("num_extra_constants")])
+    } else if id.starts_with("ReducingGate") {
+        (14, vec![field("num_coeffs")])
+    } else if id.starts_with("ReducingExtensionGate") {
+        (15, vec![field("num_coeffs")])
+    } else {
+        panic!("dump_gate: unknown gate {id}")
+    };
+    let mut out = vec![tag, params.len() as u64];
+    out.extend(params);
+    out
+}
+
+impl Toks {
+    pub fn common(&mut self, c: &CommonCircuitData<F, 2>) {
+        let cfg = &c.config;
+        self.n(cfg.num_wires);
+        self.n(cfg.num_routed_wires);
+        self.n(cfg.num_constants);
+        self.n(cfg.security_bits);
+        self.n(cfg.num_challenges);
+        self.b(cfg.zero_knowledge);
+        self.n(cfg.max_quotient_degree_factor);
+        self.fri_params(&c.fri_params);
+        self.n(c.gates.len());
+        for g in &c.gates {
+            self.0.extend(dump_gate(g));
+        }
+        // selectors_info has crate-private fields; it is serde-serialisable
+        let v = serde_json::to_value(&c.selectors_info).unwrap();
+        let idx: Vec<usize> = v["selector_indices"].as_array().unwrap().iter().map(|x| x.as_u64().unwrap() as usize).collect();
+        self.ns(&idx);
+        let groups = v["groups"].as_array().unwrap();
+        self.n(groups.len());
+        for g in groups {
+            self.n(g["start"].as_u64().unwrap() as usize);
+            self.n(g["end"].as_u64().unwrap() as usize);
+        }
+        self.n(c.quotient_degree_factor);
+        self.n(c.num_gate_constraints);
+        self.n(c.num_constants);
+        self.n(c.num_public_inputs);
+        self.fs(&c.k_is);
+        self.n(c.num_partial_products);
+        self.n(c.num_lookup_polys);
+        self.n(c.num_lookup_selectors);
+        self.n(c.luts.len());
+        for l in &c.luts {
+            self.n(l.len());
+            for &(a, b) in l.iter() {
+                self.n(a as usize);
+                self.n(b as usize);
+            }
+        }
+    }
+    pub fn verifier_only(&mut self, v: &VerifierOnlyCircuitData<C, 2>) {
+        self.cap(&v.constants_sigmas_cap);
+        self.digest(&v.circuit_digest);
+    }
+    pub fn opening_set(&mut self, o: &OpeningSet<F, 2>) {
+        self.es(&o.constants);
+        self.es(&o.plonk_sigmas);
+        self.es(&o.wires);
+        self.es(&o.plonk_zs);
+        self.es(&o.plonk_zs_next);
+        self.es(&o.partial_products);
+        self.es(&o.quotient_polys);
+        self.es(&o.lookup_zs);
+        self.es(&o.lookup_zs_next);
+    }
+    pub fn proof(&mut self, p: &Proof<F, C, 2>) {
+        self.cap(&p.wires_cap);
+        self.cap(&p.plonk_zs_partial_products_cap);
+        self.cap(&p.quotient_polys_cap);
+        self.opening_set(&p.openings);
+        self.fri_proof(&p.opening_proof);
+    }
+    pub fn proof_with_pis(&mut self, p: &ProofWithPublicInputs<F, C, 2>) {
+        self.proof(&p.proof);
+        self.fs(&p.public_inputs);
+    }
+}
+
+/// Verdict classes of the PLONK verifier, aligned with the model's stages.
+pub fn plonk_verdict(res: anyhow::Result<()>) -> String {
+    match res {
+        Ok(()) => "ACCEPT".into(),
+        Err(e) => {
+            let m = format!("{e:#}");
+            let stage = if m.contains("Invalid proof of work") {
+                "pow"
+            } else if m.contains("Number of query rounds") {
+                "num-queries"
+            } else if m.contains("Invalid Merkle proof") {
+                "merkle"
+            } else if m.contains("Final polynomial evaluation") {
+                "final"
+            } else if m.contains("old_eval") {
+                "consistency"
+            } else if m.contains("Number of public inputs") {
+                "shape-pis"
+            } else if m.contains("vanishing_polys_zeta") {
+                "identity"
             } else {
                 "shape"
             };
